@@ -45,7 +45,7 @@ ASSUMPTIONS = [
 ]
 MUST_REACH = {"roundtrips": 800, "templates_covered": 481, "beautified_roundtrips": 300, "packed_fields_printed": 200,
               "multiline_strings": 30, "replacement_hits": 30, "safe_fuzz_texts": 300, "safe_fuzz_rejected_eval": 50,
-              "registered_payload_messages": 100}
+              "registered_payload_messages": 100, "same_bytes_two_contexts": 5}
 
 _ser = UDPMessageSerializer()
 _es = Settings()
@@ -227,6 +227,34 @@ def registered_payload(rng, key, block_vals):
     return None, {}
 
 
+def _same_bytes_other_context(rng, key, payload, siblings):
+    """Sibling values of another context in which the very same payload bytes are a valid encoding, or None."""
+    ser = se.SUBFIELD_SERIALIZERS[key]
+    try:
+        ctxs = c09.contexts_for(key, ser)
+    except Exception:
+        return None
+    rng.shuffle(ctxs)
+    for label, block, tmpl in ctxs:
+        sib = {k: v for k, v in block.vars.items() if isinstance(v, int)}
+        if not sib or all(siblings.get(k) == v for k, v in sib.items()):
+            continue
+        try:
+            d = ser.deserialize(block, payload)
+            if d is se.UNSERIALIZABLE or bytes(ser.serialize(block, d)) != payload:
+                continue
+            if repr(gen_spec.canon(d)) == repr(gen_spec.canon(ser.deserialize(_block_with(key, siblings), payload))):
+                continue          # prints the same anyway
+        except Exception:
+            continue
+        return sib
+    return None
+
+
+def _block_with(key, siblings):
+    return c09.make_block(key, **{k: v for k, v in siblings.items() if isinstance(v, int)})
+
+
 def inject_registered_payloads(rng, tmpl, spec):
     """Replace Variable fields that have a registered serializer by payloads the serializer can decode."""
     touched = False
@@ -263,6 +291,17 @@ def inject_registered_payloads(rng, tmpl, spec):
                     if sk in ent and isinstance(sv, int):
                         ent[sk] = ["i", sv]
                 touched = True
+                # the same bytes under ANOTHER value of the switching sibling, in a neighbouring block of the same message:
+                # what the bytes mean (and print as) depends on the sibling, not on the bytes alone
+                if len(entries) >= 2 and rng.random() < 0.6:
+                    other = _same_bytes_other_context(rng, key, p, siblings)
+                    if other is not None:
+                        ent2 = rng.choice([e for e in entries if e is not ent])
+                        ent2[var.name] = ["b", p]
+                        for sk, sv in other.items():
+                            if sk in ent2 and isinstance(sv, int):
+                                ent2[sk] = ["i", sv]
+                        _STATE["same_bytes_two_contexts"] = _STATE.get("same_bytes_two_contexts", 0) + 1
     return touched
 
 
@@ -309,7 +348,11 @@ FUZZ_OPS = ["=", "=$", "=|", "=|$", "=$|", "=$$", "=||", "= $", "=$ |", "=|$|$",
 FUZZ_VALS = ["CANARY()", "canary(1)", "__import__('os').getpid()", "1+1", "block", "[CANARY() for _ in range(1)]",
              "(lambda: CANARY())()", "'abc'", "b'x'", "1", "{'a': CANARY()}", "eval('CANARY()')", "UUID.random()",
              "llsd.parse(b'')", "math.pi", "[[AGENT_ID]]", "<1, 2, 3>", "'a' $ CANARY()", "0 #$ CANARY()",
-             "CANARY() #|", "f'{CANARY()}'", "(CANARY(),)"]
+             "CANARY() #|", "f'{CANARY()}'", "(CANARY(),)",
+             # expressions built around tokens a 'tolerant' literal parser might special-case
+             "[nan, 2.5][1]", "nan", "[nan, CANARY()][1]", "inf - inf", "[inf, 1][0]", "1e999 - 1e999", "-nan", "(nan, 1)[1] + 1",
+             "{'nan': 1}['nan']", "None or 5", "True and 2", "not 1", "1 if True else 2", "2**10", "'a' 'b'", "-(-1)", "~5",
+             "[1, 2][0]", "(1).real", "().__class__.__name__", "dict(a=1)", "set()", "1 < 2", "[x for x in (1,)]", "b'a' * 3"]
 
 
 def safe_fuzz(ctx, rng):
@@ -402,6 +445,7 @@ def run(ctx):
                     m = _deser.deserialize(data)
                     m.direction = msg.direction
                     check_roundtrip(ctx, tmpl, spec, m, beautify, table, {"spec": spec})
+    ctx.count("same_bytes_two_contexts", _STATE.get("same_bytes_two_contexts", 0))
     safe_fuzz(ctx, rng)
 
 
